@@ -7,7 +7,7 @@ import re
 from harness import core, htmlnorm, treegen, trees, xdoc
 
 GEN = ['gen_tables', 'gen_regex', 'gen_config', 'gen_escapes', 'gen_core']
-THEOREMS = ['C03_fragment_lists_instance', 'C03_fragment_inert_instance', 'C03_fragment_emphasis_instance', 'C03_fragment_rules_instance', 'C03_thematic_break', 'C03_thematic_configs', 'C03_setext_heading', 'C03_setext_hypotheses', 'C03_indented_code_block', 'C03_indented_code_hypotheses', 'C03_link_scanners_are_the_source', 'C03_fragment_parses', 'C03_fragment_token_tree', 'C03_fragment_hypotheses', 'C03_fragment_fuel_suffices', 'C03_fragment_document',
+THEOREMS = ['C03_fragment_seq_document', 'C03_fragment_seq_html', 'C03_fragment_lists_instance', 'C03_fragment_inert_instance', 'C03_fragment_emphasis_instance', 'C03_fragment_rules_instance', 'C03_thematic_break', 'C03_thematic_configs', 'C03_setext_heading', 'C03_setext_hypotheses', 'C03_indented_code_block', 'C03_indented_code_hypotheses', 'C03_link_scanners_are_the_source', 'C03_fragment_parses', 'C03_fragment_token_tree', 'C03_fragment_hypotheses', 'C03_fragment_fuel_suffices', 'C03_fragment_document',
             'C03_fragment_html', 'C03_fragment_markdown_html', 'C03_fragment_html_instance', 'C03_fragment_paragraph_lines_instance', 'C03_fragment_headings_instance', 'C03_outline_lists', 'C03_outline_html', 'C03_outline_instance',
             'C03_fragment_document_markdown', 'C03_fragment_document_configs', 'C03_bounded_trees', 'C03_family_is_not_vacuous']
 TRUSTED = ['harness/treegen.py: the tree grammar, the speller (every free choice drawn and counted) and the direct HTML writer - the independent oracle; '
@@ -134,6 +134,24 @@ def frag_tree(rng, depth):
             ks[0] = ('r', ('_' if m == '-' else '-') * len(ks[0][1]))
         t = ('i', m, pad, ks) if t is None else ('m', m, pad, ks, t)
     return t
+
+
+def frag_doc(rng, depth):
+    """a document of the fragment: one tree, or several top-level trees separated by blank lines (C03_fragment_seq_document)"""
+    if rng.random() < 0.65:
+        return [frag_tree(rng, depth)]
+    ts = [frag_tree(rng, max(0, depth - 1)) for _ in range(rng.randint(2, 4))]
+    frag_fix_kids(ts)
+    return ts
+
+
+def frag_doc_text(ts):
+    lines = []
+    for i, t in enumerate(ts):
+        if i:
+            lines.append('')
+        lines += frag_spell(t)
+    return '\n'.join(lines) + '\n'
 
 
 def frag_fix_kids(kids):
@@ -426,9 +444,14 @@ def setext_worker(seed):
 def frag_worker(args):
     seed, depth = args
     rng = random.Random(seed)
-    t = frag_tree(rng, depth)
-    text = '\n'.join(frag_spell(t)) + '\n'
-    want_tree, want_lines = frag_expect(t, 1)
+    ts = frag_doc(rng, depth)
+    text = frag_doc_text(ts)
+    want_trees, want_lines, cur = [], [], 1
+    for t in ts:
+        d, l = frag_expect(t, cur)
+        want_trees.append(d)
+        want_lines += l
+        cur += len(frag_spell(t)) + 1
     from mistletoe import Document
     try:
         with xdoc.renderer(0):
@@ -439,9 +462,9 @@ def frag_worker(args):
         html = mistletoe.markdown(text)
     except Exception as e:
         return text, False, 'EXC %s: %s' % (type(e).__name__, e), None
-    want_html = frag_html(t, False) + '\n'
-    ok = got == [want_tree] and gl == want_lines and html == want_html
-    return text, ok, (got, gl, html), ([want_tree], want_lines, want_html)
+    want_html = '\n'.join(frag_html(t, False) for t in ts) + '\n'
+    ok = got == want_trees and gl == want_lines and html == want_html
+    return text, ok, (got, gl, html), (want_trees, want_lines, want_html)
 
 
 def run(ctx, only=None):
@@ -503,11 +526,13 @@ def run(ctx, only=None):
     ctx.count('fragment_trees_with_inert_delimiters', sum(1 for (_, d_), (text, _, _, _) in zip(fjobs, fres) if re.search(r'[\[\]!&]|\*[^*\n]|_', text) ))
     def has_more(t):
         return t[0] == 'm' or (t[0] in 'qi' and any(has_more(k) for k in (t[1] if t[0] == 'q' else t[3])))
-    ctx.count('fragment_trees_with_lists_of_several_items_in_first_1500', sum(1 for (seed, depth) in fjobs[:1500] if has_more(frag_tree(random.Random(seed), depth))))
+    docs = [frag_doc(random.Random(seed), depth) for (seed, depth) in fjobs[:1500]]
+    ctx.count('fragment_trees_with_lists_of_several_items_in_first_1500', sum(1 for ts in docs if any(has_more(t) for t in ts)))
+    ctx.count('fragment_documents_of_several_blocks_in_first_1500', sum(1 for ts in docs if len(ts) > 1))
     # the theorem's own hypothesis (wf_b) and the text it speaks about (spell), evaluated in the proof assistant on a sample of those trees
     if not ctx.proof_failures:
         sample = [(seed, depth) for (seed, depth) in fjobs if depth <= 4][:(150 if ctx.quick() else 1500)]
-        sts = [frag_tree(random.Random(seed), depth) for (seed, depth) in sample]
+        sts = [('q', frag_doc(random.Random(seed), depth)) for (seed, depth) in sample]      # the document's blocks as the content of one quote: same trees, same sequence conditions
         res, err = model_frag_wf(sts)
         if res is None or len(res) != len(sts):
             ctx.disagreements.append({'interface': 'X-hyp(fragment)', 'input': {'seed': sample[0][0], 'depth': sample[0][1]}, 'model': 'wf_b could not be evaluated: ' + err, 'impl': ''})
@@ -515,7 +540,7 @@ def run(ctx, only=None):
             for (seed, depth), t, (wf, mtext) in zip(sample, sts, res):
                 ctx.count('fragment_trees_with_hypotheses_checked_in_the_model')
                 text = '\n'.join(frag_spell(t)) + '\n'
-                if not wf or mtext != text:
+                if not wf or mtext != text or ''.join(l[2:] + '\n' for l in text.split('\n')[:-1]) != frag_doc_text(t[1]):
                     ctx.disagreements.append({'interface': 'X-hyp(fragment)', 'input': {'text': text, 'seed': seed, 'depth': depth},
                                               'model': 'wf_b = %s, spelled text %r' % (wf, mtext), 'impl': 'a tree of the fragment by the harness generator, spelled %r' % text})
     # the outline lists of the second unbounded theorem, on the implementation
